@@ -484,3 +484,74 @@ Definition tpat_preds (t : tpat) : list pred := let '(_, pa, _) := t in path_pre
 Definition pat_preds (p : pat) : list pred :=
   match p with Tp t => tpat_preds t | Alt ts => flat_map tpat_preds ts end.
 Definition query_preds (q : list pat) : list pred := flat_map pat_preds q.
+
+(* ------------------------------------------------------------------ *)
+(* The order of the conjuncts does not matter for the meaning, but it does
+   for the cost of the search: [reorder] greedily puts next the conjunct with
+   the fewest unbound variables, preferring one that shares a variable with
+   what is already bound.  [matcho] is what the harness evaluates. *)
+
+Definition tp_vars (t : tpat) : list nat :=
+  let '(x, _, y) := t in
+  (match x with V v => [v] | K _ => [] end) ++ (match y with V v => [v] | K _ => [] end).
+
+Definition pat_vars (p : pat) : list nat :=
+  match p with Tp t => tp_vars t | Alt ts => flat_map tp_vars ts end.
+
+Definition score (B : list nat) (p : pat) : nat :=
+  let vs := pat_vars p in
+  let unbound := length (filter (fun v => negb (existsb (Nat.eqb v) B)) vs) in
+  match unbound with
+  | 0 => 0
+  | _ => 2 * unbound + (if existsb (fun v => existsb (Nat.eqb v) B) vs then 0 else 1)
+  end.
+
+Fixpoint pick (B : list nat) (l : list pat) : option (pat * list pat) :=
+  match l with
+  | [] => None
+  | p :: r =>
+      match pick B r with
+      | None => Some (p, [])
+      | Some (q, r') => if Nat.leb (score B p) (score B q) then Some (p, r) else Some (q, p :: r')
+      end
+  end.
+
+Lemma pick_In B l q r' : pick B l = Some (q, r') -> forall x, In x l <-> x = q \/ In x r'.
+Proof.
+  revert q r'. induction l as [|p r IH]; intros q r'; cbn [pick]; [discriminate|].
+  destruct (pick B r) as [[q0 r0]|] eqn:E.
+  - specialize (IH q0 r0 eq_refl).
+    destruct (Nat.leb (score B p) (score B q0)); intros [= <- <-]; intros x; cbn [In].
+    + intuition.
+    + rewrite IH. intuition.
+  - intros [= <- <-] x. destruct r; [|cbn in E; destruct (pick B r); try destruct p1;
+      try destruct (Nat.leb _ _); discriminate]. cbn. intuition.
+Qed.
+
+Fixpoint reorder (fuel : nat) (B : list nat) (l : list pat) : list pat :=
+  match fuel with
+  | 0 => l
+  | S f => match pick B l with
+           | None => []
+           | Some (q, r) => q :: reorder f (pat_vars q ++ B) r
+           end
+  end.
+
+Lemma reorder_In fuel : forall B l x, In x (reorder fuel B l) <-> In x l.
+Proof.
+  induction fuel as [|f IH]; intros B l x; cbn [reorder]; [tauto|].
+  destruct (pick B l) as [[q r]|] eqn:E.
+  - cbn [In]. rewrite IH, (pick_In B l q r E x). intuition.
+  - destruct l; [tauto|]. cbn in E. destruct (pick B l); try destruct p0;
+      try destruct (Nat.leb _ _); discriminate.
+Qed.
+
+Definition matcho (G : graph) (q : list pat) : bool := matchc G (reorder (length q) [] q).
+
+Theorem matcho_spec G q : matcho G q = true <-> matches G q.
+Proof.
+  unfold matcho. rewrite matchc_spec. unfold matches, sat.
+  split; intros (s & S); exists s; rewrite Forall_forall in *; intros p Hp; apply S.
+  - now apply reorder_In.
+  - now apply reorder_In in Hp.
+Qed.
